@@ -115,7 +115,7 @@ def summarize(results, what, cmp_failpos=False):
             samples.append({'grammar': r['text'], 'outcomes': r['outcomes']})
         for m in r['mismatches']:
             item = {'key': f'{r["text"]}|{m["entry"]}|{m["pos"]}|{m["input"]}',
-                    'grammar': r['text'], **m}
+                    'grammar': r['text'], 'sig': m.get('variant') or r['text'], 'bm': r.get('bm', False), **m}
             if m['kind'] == 'spec':
                 item['what'] = (f'implementation {m["real"]} but documented meaning {m["peg"]} '
                                 f'on input {m["input"]!r}')
@@ -154,8 +154,11 @@ def replay(case, lean):
     """re-run one recorded case (grammar text + input) -> list of violations"""
     from extract_flags import bits_of
     bits = bits_of(lean.regen['flags']['entries'])
+    inp = case.get('base_input', case['input'])
     job = {'id': 0, 'text': case['grammar'], 'bm': case.get('bm', False),
            'entries': [case.get('entry', 'start')],
-           'cases': [(case.get('pos', 0), case['input'].encode('latin-1') if case.get('bm') else case['input'])]}
+           'cases': [(case.get('pos', 0), inp.encode('latin-1') if case.get('bm') else inp)]}
+    if case.get('variant'):
+        job['dyn'] = {'text': case['variant'], 'prefix': case.get('prefix', '')}
     res = corerun.run_jobs([job], bits)
     return summarize(res, 'replay')
